@@ -52,6 +52,8 @@ static inline std::string guarded(const std::function<std::string()>& f) {
     try { return f(); }
     catch (const std::invalid_argument&) { return "throw:invalid_argument"; }
     catch (const std::overflow_error&) { return "throw:overflow_error"; }
+    catch (const std::length_error&) { return "throw:length_error"; }
+    catch (const std::out_of_range&) { return "throw:out_of_range"; }
     catch (const std::runtime_error&) { return "throw:runtime_error"; }
     catch (const std::bad_alloc&) { return "throw:bad_alloc"; }
     catch (const std::logic_error& e) { return std::string("HARNESS-ERROR:") + e.what(); }
